@@ -36,7 +36,10 @@ type c18Phase struct {
 	//         returned from Lock() or max_hold_ms elapsed; the others start once it holds.
 	Kind      string `json:"kind"`
 	MaxHoldMs int    `json:"max_hold_ms"`
-	Gs        []c18G `json:"gs"`
+	// hold phases only: once it holds the lock gs[0] re-grants its member's lease and creates a
+	// fresh handle (usable as h = 8 on that member) before the others start
+	Regrant bool   `json:"regrant"`
+	Gs      []c18G `json:"gs"`
 }
 
 type c18In struct {
@@ -45,7 +48,7 @@ type c18In struct {
 }
 
 type c18Obs struct {
-	Ev    [][2]int `json:"ev"` // [code, attempt | key count]: 0 Acq 1 Rel 2 Fail 3 Keys 4 Hung
+	Ev    [][2]int `json:"ev"` // [code, attempt | key count]: 0 Acq 1 Rel 2 Fail 3 Keys 4 Hung 5 Regrant
 	MaxOv int      `json:"max_overlap"`
 }
 
@@ -55,6 +58,9 @@ const (
 	c18Fail = 2
 	c18Keys = 3
 	c18Hung = 4
+	// the holder re-granted its member's lease and created a fresh handle (slot c18FreshH)
+	c18Regrant = 5
+	c18FreshH  = 8
 )
 
 type c18Env struct {
@@ -146,8 +152,26 @@ func (r *c18Run) getHandle(m, h int) *mutex {
 	return x
 }
 
+// regrant is the fault of the "regrant" hold phases, executed by the holder inside its critical
+// section: the member's lease is granted again (what keepAliveLease does after a failed keep-alive),
+// then a fresh handle is obtained with cluster.Mutex(name) (slot c18FreshH of the member) - the
+// lock key of the holder must survive both.
+func (r *c18Run) regrant(aid, m int) {
+	if err := r.env.members[m].grantNewLease(); err != nil {
+		panic(fmt.Sprintf("c18: grantNewLease: %v", err))
+	}
+	mx, err := r.env.members[m].Mutex(r.name)
+	if err != nil {
+		panic(fmt.Sprintf("c18: Mutex() after the lease re-grant: %v", err))
+	}
+	r.hmu.Lock()
+	r.handle[[2]int{m, c18FreshH}] = mx.(*mutex)
+	r.hmu.Unlock()
+	r.log(c18Regrant, aid)
+}
+
 // attempt runs one Lock / critical section / Unlock; returns false if Lock failed.
-func (r *c18Run) attempt(aid int, g c18G, it [2]int, locked chan<- struct{}, holdUntil <-chan struct{}, maxHold time.Duration) bool {
+func (r *c18Run) attempt(aid int, g c18G, it [2]int, onLocked func(ok bool), holdUntil <-chan struct{}, maxHold time.Duration) bool {
 	mx := r.getHandle(g.M, g.H)
 	if it[0] > 0 {
 		time.Sleep(time.Duration(it[0]) * time.Microsecond)
@@ -160,11 +184,11 @@ func (r *c18Run) attempt(aid int, g c18G, it [2]int, locked chan<- struct{}, hol
 	if g.ToMs > 0 {
 		mx.timeout = 10 * time.Second
 	}
-	if locked != nil {
-		close(locked)
-	}
 	if err != nil {
 		r.log(c18Fail, aid)
+		if onLocked != nil {
+			onLocked(false)
+		}
 		return false
 	}
 	n := atomic.AddInt32(&r.inCS, 1)
@@ -175,6 +199,9 @@ func (r *c18Run) attempt(aid int, g c18G, it [2]int, locked chan<- struct{}, hol
 		}
 	}
 	r.log(c18Acq, aid)
+	if onLocked != nil {
+		onLocked(true)
+	}
 	if holdUntil != nil {
 		select {
 		case <-holdUntil:
@@ -216,7 +243,7 @@ func c18Exec(e *c18Env, in c18In) (obs c18Obs) {
 	aid := 0
 	for _, ph := range in.Phases {
 		var wg sync.WaitGroup
-		var started chan struct{}   // closed when the holder holds
+		var started chan struct{}    // closed when the holder holds
 		var othersDone chan struct{} // closed when every contender returned from Lock
 		var contenders sync.WaitGroup
 		if ph.Kind == "hold" {
@@ -237,7 +264,13 @@ func c18Exec(e *c18Env, in c18In) (obs c18Obs) {
 							r.log(c18Hung, base)
 						}
 					}()
-					r.attempt(base, g, g.Its[0], started, othersDone, time.Duration(ph.MaxHoldMs)*time.Millisecond)
+					regrant := ph.Regrant
+					r.attempt(base, g, g.Its[0], func(ok bool) {
+						defer close(started)
+						if ok && regrant {
+							r.regrant(base, g.M)
+						}
+					}, othersDone, time.Duration(ph.MaxHoldMs)*time.Millisecond)
 				}()
 			case ph.Kind == "hold":
 				contenders.Add(1)
@@ -251,13 +284,12 @@ func c18Exec(e *c18Env, in c18In) (obs c18Obs) {
 					<-started
 					first := true
 					for j, it := range g.Its {
-						var lk chan struct{}
+						var cb func(bool)
 						if first {
-							lk = make(chan struct{})
-							go func() { <-lk; contenders.Done() }()
+							cb = func(bool) { contenders.Done() }
 							first = false
 						}
-						r.attempt(base+j, g, it, lk, nil, 0)
+						r.attempt(base+j, g, it, cb, nil, 0)
 					}
 				}()
 			default:
@@ -338,6 +370,24 @@ func c18GenHold(r *vfRand, members int) c18Phase {
 	return ph
 }
 
+// the holder's member gets a new lease (and a fresh handle) while the holder holds; contenders with
+// ample time-outs on the other members - and optionally one on the holder's member through the fresh
+// handle - must stay out until the holder releases (after max_hold_ms)
+func c18GenRegrant(r *vfRand, members int) c18Phase {
+	ph := c18Phase{Kind: "hold", Regrant: true, MaxHoldMs: r.PickInt(150, 250, 350)}
+	hm := r.Intn(members)
+	ph.Gs = append(ph.Gs, c18G{M: hm, Its: [][2]int{{0, r.Intn(500)}}})
+	for m := 0; m < members; m++ {
+		if m != hm && (r.Chance(2, 3) || len(ph.Gs) == 1) {
+			ph.Gs = append(ph.Gs, c18G{M: m, Its: [][2]int{{r.Intn(2000), r.Intn(500)}}})
+		}
+	}
+	if r.Chance(1, 3) {
+		ph.Gs = append(ph.Gs, c18G{M: hm, H: c18FreshH, Its: [][2]int{{0, r.Intn(300)}}})
+	}
+	return ph
+}
+
 // the shape of KF-C18-handle-local-lock: holder and contender on ONE member, separate handles
 func c18GenSameMemberHold(r *vfRand, members int) c18Phase {
 	m := r.Intn(members)
@@ -352,6 +402,11 @@ func c18Gen(r *vfRand, i int, adv bool) c18In {
 	switch {
 	case i%9 == 4 && in.Members > 1: // time-out path, then everybody locks again
 		in.Phases = append(in.Phases, c18GenHold(r, in.Members), c18GenFree(r, in.Members, false))
+	case (i%9 == 7 || adv && i%3 == 1) && in.Members > 1: // lease re-grant under the holder, then everybody locks again
+		in.Phases = append(in.Phases, c18GenRegrant(r, in.Members), c18GenFree(r, in.Members, false))
+		if r.Chance(1, 3) {
+			in.Phases = append(in.Phases, c18GenRegrant(r, in.Members))
+		}
 	case (adv && i%3 == 0) || i%17 == 11: // separate handles on one member
 		if r.Bool() {
 			in.Phases = append(in.Phases, c18GenSameMemberHold(r, in.Members), c18GenFree(r, in.Members, false))
